@@ -102,6 +102,22 @@ def wrapper(kind, impl, in_mask, out_mask, variant=0):
     n_out = len([p for p in impl.io_nodes if len(p.ins) > 0])
     c = Circuit('w')
     u = Node(c, 'u', kind)
+    if variant == 2:
+        # bench-style netlist: the ports are the forks themselves; the first instance input is fed by an OUTPUT port (a driven fork
+        # with its own cone) - if all instance outputs are open, the instance is pruned but the port and its cone must stay
+        for k in range(n_in):
+            if not in_mask[k]: continue
+            if k == 0:
+                a0, a1 = Node(c, 'a0'), Node(c, 'a1'); c.io_nodes += [a0, a1]
+                g = Node(c, 'gq', 'AND2'); Line(c, a0, g); Line(c, a1, g)
+                q = Node(c, 'q'); Line(c, g, q); c.io_nodes.append(q)
+                Line(c, q, (u, 0))
+            else:
+                pi = Node(c, f'i{k}'); c.io_nodes.append(pi); Line(c, pi, (u, k))
+        for k in range(n_out):
+            if not out_mask[k]: continue
+            f = Node(c, f'o{k}'); Line(c, (u, k), f); c.io_nodes.append(f)
+        return c
     for k in range(n_in):
         if not in_mask[k]: continue
         if variant == 1 and k > 0 and in_mask[0]:
@@ -358,6 +374,9 @@ def jobs(tier, seed):
                 J.append(('subst', (libname, kind, im, om, 0, ())))
             J.append(('subst', (libname, kind, full_i, full_o, 1, ())))
             J.append(('subst', (libname, kind, full_i, full_o, 1, ('elim', 'copy', 'pickle'))))
+            if n_in >= 1:
+                J.append(('subst', (libname, kind, full_i, (False,) * n_out, 2, ('copy', 'pickle'))))
+                J.append(('subst', (libname, kind, full_i, full_o, 2, ())))
     return J
 
 
